@@ -76,7 +76,7 @@ def build(clean=False):
             rc, out = sh("coq_makefile -f _CoqProject -o Makefile", cwd=COQ)
             if rc != 0:
                 raise BuildError("coq_makefile", out)
-        rc, out = sh("make -j16", cwd=COQ, timeout=3000)
+        rc, out = sh("make -k -j16", cwd=COQ, timeout=3000)      # -k: one broken proof file must not keep the others (and the model) from being built
         coq_log = out
         if rc != 0:
             # keep going with whatever compiled: the model may still be runnable
